@@ -110,6 +110,21 @@ PLAN["C15"] = {
     "components": {"real": ["std/object Client (run loop goroutine, Produce, Consume, round-robin segment fetcher, ExpressR retry)", "std/object MemoryStore and BoltStore (real bbolt file under TMPDIR, removed after the run)", "std/engine/basic Engine x2 with its real Timer on the bubble clock", "std/ndn/rdr_2024 metadata codec"], "stub": ["faces (SimFace)", "the network/forwarder between the two engines (scripted hub)"]},
     "assumptions": ["a transmission dropped, or delayed to within 10% of the Interest lifetime, costs its name one of four attempts; a fetch may fail only if some name lost four", "faces do not recycle receive buffers (none in the repository does)", "the store interface's Get(prefix) is specified as 'newest Data wire with the given prefix'; names that are both a packet and a prefix of packets are not generated"],
 }
+DV_COMPONENTS = {"real": ["dv/dv Router (update rule with poison reverse, advertisement generation, sync-Interest handling, advert fetch/retry, dead-neighbour handling, FIB differ, prefix fetch/apply, readvertise handler)", "dv/table Rib, NeighborTable, Fib, PrefixTable", "dv/nfdc management client thread with its retry loop", "std/engine/basic Engine per router with its real Timer on the bubble clock", "dv/tlv and mgmt_2022 codecs"], "stub": ["the forwarders between the daemons: one simulated hub that answers management commands as NFD would, carries one-hop sync Interests with incoming-face indication, routes advertisement/prefix-data Interests to the named router and Data back", "std/sync SvSync is constructed but not started (unseedable jitter): new prefix-log sequence numbers are notified by the hub", "heartbeat and dead-check tickers: their firings are scenario events"]}
+PLAN["C18"] = {
+    "parts": [{"engine": "dvsim", "quick": 5000, "thorough": 500000, "quick_wall": 85}],
+    "nontrivial": ">=3 routers and the settle phase needed >=2 rounds in which tables still changed",
+    "fault_note": "arbitrary delivery order of sync Interests, advertisement fetches and replies; loss (fetch retries), duplication, delay; link removal and re-addition; router crash and restart (volatile state lost); dead-check ticks; then faults stop and bounded-time convergence is demanded",
+    "components": DV_COMPONENTS,
+    "assumptions": ["links are symmetric and unit cost (the daemon has no other metric)", "after faults stop the hub delivers everything and keeps ticking; convergence must be reached within 400 heartbeat rounds / 50000 deliveries (worst case count-to-infinity is about n^2*16*degree deliveries)"],
+}
+PLAN["C19"] = {
+    "parts": [{"engine": "dvsim", "quick": 5000, "thorough": 500000, "quick_wall": 85}],
+    "nontrivial": ">=1 announced prefix was installed as a route and the announced set changed during the run",
+    "fault_note": "as C18 plus prefix announce/withdraw through the real readvertise handler (incl. bursts that open a log gap > 100 and force a snapshot), multi-homed prefixes, neighbour face-id changes, late joiners, loss/duplication of prefix-sync notifications and prefix-data fetches, management commands failing within the client's retry budget",
+    "components": DV_COMPONENTS,
+    "assumptions": ["management commands fail at most twice in a row (the client retries three times; beyond that the daemon gives up by design)", "the comparison is made whenever the daemon's management queue is empty"],
+}
 
 NOT_APPLICABLE = [
     {"property_id": "C03", "reason": "encode->decode round trip is a pure function of the packet value and a byte segmentation: no schedule, clock, fault or shared state for a simulator to own"},
@@ -119,6 +134,7 @@ NOT_APPLICABLE = [
 ]
 
 ENGINES = [
+    {"name": "dvsim", "path": "sim/dvsim", "serves_properties": ["C18", "C19"], "kind_free_text": "N real routing daemons on real engines in one synctest bubble over a simulated hub (scenario-chosen delivery order, loss, duplication, link/router failures); reference route table replayed from the command stream"},
     {"name": "objsim", "path": "sim/objsim", "serves_properties": ["C15"], "kind_free_text": "real object producer and consumer clients on real engines in one synctest bubble, joined by a scripted lossy/reordering network; differential store histories"},
     {"name": "schedsim", "path": "sim/schedsim", "serves_properties": ["C16"], "kind_free_text": "cooperative seeded scheduler releasing real goroutines one at a time at table-lock yield hooks; porcupine linearizability check"},
     {"name": "mgmtsim", "path": "sim/mgmtsim", "serves_properties": ["C17"], "kind_free_text": "whole forwarder (management thread, internal face, forwarding threads, link services) in one synctest bubble; command histories against a command-level reference model"},
